@@ -1,6 +1,15 @@
+mod c01;
 mod c09;
 mod c13;
+mod life;
 
 fn main() {
-    vcore::runner::main(&[("C09", c09::run), ("C13", c13::run)])
+    vcore::runner::main(&[
+        ("C01", c01::run_c01),
+        ("C02", c01::run_c02),
+        ("C05", c01::run_c05),
+        ("C06", c01::run_c06),
+        ("C09", c09::run),
+        ("C13", c13::run),
+    ])
 }
